@@ -400,10 +400,11 @@ def plans_for(ctx):
     if ctx.quick:
         return ([("A", SCN_WHOLE, dict(MaxOps=4, MaxFail=1, MaxStmts=1), 800),
                  ("B", SCN_FRAC, dict(MaxOps=4, MaxFail=1, MaxStmts=1), 1200)], 130, 50)
-    return ([("A", SCN_WHOLE, dict(MaxOps=6, MaxFail=1, MaxStmts=1), 12000),
-             ("A2", SCN_WHOLE, dict(MaxOps=3, MaxFail=2, MaxStmts=2), 12000),
-             ("B", SCN_FRAC, dict(MaxOps=5, MaxFail=1, MaxStmts=1), 12000),
-             ("C", SCN_SHARE, dict(MaxOps=4, MaxFail=1, MaxStmts=1), 12000)], 3000, 120)
+    # measured (TLC, 4 workers): A/6 67,073 distinct states 35 s; A2 41,468 / 37 s; B/5 69,769 / 43 s; C/4 47,602 / 33 s
+    return ([("A", SCN_WHOLE, dict(MaxOps=6, MaxFail=1, MaxStmts=1), 5000),
+             ("A2", SCN_WHOLE, dict(MaxOps=3, MaxFail=2, MaxStmts=2), 5000),
+             ("B", SCN_FRAC, dict(MaxOps=5, MaxFail=1, MaxStmts=1), 6000),
+             ("C", SCN_SHARE, dict(MaxOps=4, MaxFail=1, MaxStmts=1), 5000)], 800, 100)
 
 
 def run_stage(ctx, prefixes):
